@@ -181,6 +181,9 @@ func checkC01(c *Check) {
 	forEachRuntime(c, func(a *aggregator, v *rtView) {
 		rtSentinel(a, v)
 		rtMatchers(a, v)
+		if rtEvalHere(v) {
+			rtMatcherSemantics(a, v)
+		}
 	})
 }
 
